@@ -127,8 +127,22 @@ z3.RecAddDefinition(
     z3.If(Tree.is_Op(_t), z3.Or(leaf_of(Tree.l(_t), _r), leaf_of(Tree.r(_t), _r)),
           z3.If(Tree.is_Fn(_t), Tree.ref(_t) == _r, z3.BoolVal(False))))
 
+# ---- lexing: lexline is the character-level spec lexer of one line (executable twin: spec/sexp.py:lexline); uninterpreted in proofs
+lexline = z3.Function("lexline", S, Q)
+lex_lines = z3.RecFunction("lex_lines", Q, Q)
+_ls = z3.Const("_ls", Q)
+_n = z3.Length(_ls)
+z3.RecAddDefinition(lex_lines, [_ls], z3.If(_n == 0, z3.Empty(Q), z3.Concat(lex_lines(z3.SubSeq(_ls, 0, _n - 1)), lexline(_ls[_n - 1]))))
+
+# lexp(L, k): tokens of the first k lines (recursion on k: no nested sub-sequences in the unfolding)
+lexp = z3.RecFunction("lexp", Q, I, Q)
+_k = z3.Const("_k", I)
+z3.RecAddDefinition(lexp, [_ls, _k], z3.If(_k <= 0, z3.Empty(Q), z3.Concat(lexp(_ls, _k - 1), lexline(_ls[_k - 1]))))
+
 SPEC_FUNCS = {
     "flat": (flat, ["sexp"], ("seq", "str")),
+    "lexline": (lexline, ["str"], ("seq", "str")),
+    "lex_lines": (lex_lines, [("seq", "str")], ("seq", "str")),
     "flatl": (flatl, ["slist"], ("seq", "str")),
     "wf_sexp": (wf_sexp, ["sexp"], "bool"),
     "wf_slist": (wf_slist, ["slist"], "bool"),
